@@ -76,12 +76,22 @@ def cond(rng, name):
     return rng.choice(COND_FORMS).format(N=name)
 
 
+_OPTS = []
+
+
+def option_names():
+    if not _OPTS:
+        from fortls.interface import cli
+        _OPTS.extend(sorted(a.dest for a in cli("fortls")._actions if a.dest not in ("help", "version")))
+    return _OPTS
+
+
 def adversarial(rng, canary, victim, wsroot):
     """-> (files, config or None, template tag)"""
     C, V, W = canary, victim, wsroot
     pay = rng.choice(PY_PAYLOADS).format(C=C, V=V, W=W)
     kind = rng.choice(["define-if", "if", "elif", "funcmacro-if", "funcmacro-use", "config-ppdefs", "define-use", "include-path", "fortran-include",
-                       "filename", "config-odd", "ifdef-chain", "define-nested", "doc-format"])
+                       "filename", "config-odd", "config-option-path", "ifdef-chain", "define-nested", "doc-format"])
     body = "program adv\n  integer :: i\n  i = 1\nend program adv\n"
     files, cfg = {}, None
     ext = rng.choice([".F90", ".F", ".fpp", ".F08"])
@@ -117,6 +127,16 @@ def adversarial(rng, canary, victim, wsroot):
             {"hover_language": "{0.__class__.__init__.__globals__}", "debug_log": False},
             {"excl_suffixes": ["$(touch %s)" % C], "incl_suffixes": [".$(touch %s)" % C]},
         ])
+        files["adv" + ext] = f"#if defined(X)\n#endif\n{body}"
+    elif kind == "config-option-path":
+        # one option of the configuration file (any of the server's options) is given a path-like string, list or dict naming files
+        # outside the workspace or a source file: whatever the option means, no file may be created, truncated or removed for it
+        opt = rng.choice(option_names())
+        path = rng.choice([C, "../" + os.path.basename(C), V, os.path.join(W, "adv" + ext), "adv" + ext, "sub/../../" + os.path.basename(C), "/dev/null/x"])
+        val = rng.choice([path, [path], {"path": path}, {path: path}, path + "\n" + C])
+        cfg = {opt: val}
+        if rng.random() < 0.5:
+            cfg["debug_log"] = rng.choice([True, path])
         files["adv" + ext] = f"#if defined(X)\n#endif\n{body}"
     elif kind == "ifdef-chain":
         files["adv" + ext] = f"#define A {pay}\n#define B A\n#define D B\n#if {cond(rng, 'D')}\n#elif {cond(rng, 'B')}\n#endif\n#ifdef A\n#if !A\n#elif {cond(rng, 'A')}\n#endif\n#endif\n{body}"
